@@ -1,5 +1,5 @@
 From Coq Require Import ZArith List.
-From PV Require Import Base.U64 C12.C12_Model C12.C12_Mem C12.C12_MemC C12.C12_Iov C12.C12_Deser C12.C12_Walk C12.C12_Flat C12.C12_Proofs C12.C12_Sep C12.C12_Wire C12.C12_RtD C12.C12_RtS C12.C12_Rt C12.C12_RtC C12.C12_RtC2 C12.C12_RtC3.
+From PV Require Import Base.U64 C12.C12_Model C12.C12_Mem C12.C12_MemC C12.C12_Iov C12.C12_Deser C12.C12_Walk C12.C12_Flat C12.C12_Proofs C12.C12_Sep C12.C12_Wire C12.C12_RtD C12.C12_RtS C12.C12_Rt C12.C12_RtC C12.C12_RtC2 C12.C12_RtC3 C12.C12_Hx C12.C12_View C12.C12_Hb C12.C12_Hb2.
 Theorem deser_in_bounds_no_trap : forall hstep sh m v,
   shape_wf sh -> inv m v ->
   exists t st, deserialize hstep cfg_final sh m v = Ok (t, st) /\ inv (d_mem st) (d_iov st) /\
@@ -14,6 +14,17 @@ Theorem deser_in_bounds_fields_partial : forall hstep sh m v,
                  exists its, w_fields cfg_final (sh_fields sh) (d_mem st) t = Ok its).
 Proof. exact deserialize_fields_in_bounds_partial. Qed.
 Print Assumptions deser_in_bounds_fields_partial.
+Theorem deser_in_bounds_fields : forall hstep sh m v,
+  shape_wf sh -> lay_fs (sh_fields sh) -> (forall b, psep (aranges_fs (sh_fields sh) b)) ->
+  inv m v -> psep (i_el v) ->
+  exists t st, deserialize hstep cfg_final sh m v = Ok (t, st) /\
+    (t <> 0%Z -> exists C vals w F its,
+       claimed_ok (i_el v) (len m) (d_mem st) C /\ In (t, sh_size sh) C /\
+       rd_fs (perm (sh_fields sh)) (d_mem st) t = Ok (vals, w, F) /\
+       (forall r, In r F -> (snd r <= 0)%Z \/ exists c, In c C /\ within r c) /\
+       w_fields cfg_final (sh_fields sh) (d_mem st) t = Ok its).
+Proof. exact deserialize_fields_in_bounds. Qed.
+Print Assumptions deser_in_bounds_fields.
 Theorem ser_roundtrip_front_copy_refines_flat_partial : forall m,
   Forall (fun L => (L <= STRIDE)%Z) (lens m) ->
   forall el bytes bs d el', Forall (el_ok (lens m)) el -> flat m el = Ok bs -> (0 < bytes <= sum_el el)%Z ->
